@@ -422,6 +422,7 @@ func (c *Ctx) enterBlock(st *State, b *ssa.BasicBlock) bool {
 			if al.Frame != len(st.Frames) || al.L == nil || al.L.Blocks[b] {
 				break
 			}
+			st.LastLoop = al.L
 			st.Loops = st.Loops[:len(st.Loops)-1]
 			st.Record = st.Record[:len(st.Record)-1]
 		}
